@@ -58,7 +58,7 @@ CLAIMED = {
          "DESIGN.md §6 C18", "simetcd is a single linearizable store (raft, multi-node etcd and lease expiry while holding are out of scope); three genuine findings about requests applied after the caller gave up are listed as known in known_findings.txt."),
  "C19": ("deterministic simulation: real syncer + real etcd clientv3 (watcher resume, retry) over gRPC on the simulated network against simetcd, a simulated single-copy MVCC etcd server, with write histories, watch-stream breaks, compaction cancels, server stop/start, RPC errors/latency and slow consumers; post-hoc oracle over simetcd's complete revision log",
          "Seeded search over put/delete histories under and outside the watched key/prefix x the four Sync adapters x fault sequences (stream break, fatal stream end, compaction while down, server restart, Range errors and latency, reply lost after apply, slow watch delivery) x consumer lag x interleavings; every delivered snapshot must be a state the store really had, in non-decreasing store order, consecutive ones different, and once writes and faults stop the final state must be delivered within a bounded number of quiet periods (bounded liveness).",
-         "DESIGN.md §6 C19", "simetcd replaces raft+bbolt by a linearizable in-memory model (differentially tested against the repo's embedded etcd: 40 x 80 random ops, 0 mismatches); the etcd client is a copy of client/v3 v3.5.4 with one patched line (a package-level channel that would stall the bubble); four Go runtime files are overlaid for reproducible replays (harness/simetcd/README.md)."),
+         "DESIGN.md §6 C19", "simetcd replaces raft+bbolt by a linearizable in-memory model (differentially tested against the repo's embedded etcd: 40 x 80 random ops, 0 mismatches); the etcd client is a copy of client/v3 v3.5.4 with two patched places (a package-level channel that would stall the bubble; a hook variable for extra dial options so that the unmodified cluster.getClient reaches the simulated server); four Go runtime files are overlaid for reproducible replays (harness/simetcd/README.md)."),
  "C20": ("deterministic simulation: snapshot sequences fed through a mocked cluster syncer into the real Supervisor/ObjectRegistry/TrafficController/RawConfigTrafficController with panicking lifecycle callbacks, per-name lifecycle automaton as oracle",
          "Seeded search over snapshot histories (appear/change/unchanged/disappear/reappear/kind change/coalesced) x injected panics in Init/Inherit/Close x goroutine interleavings; recorded lifecycle calls are compared with the sequence derived from the snapshots.",
          "DESIGN.md §6 C20", "the cluster is clustertest.MockedCluster; object kinds are recording test kinds (one registered under the kind name Pipeline so that the pipeline half of TrafficController runs); a second TrafficController namespace is driven concurrently; unusable documents are a fault kind."),
